@@ -447,6 +447,8 @@ Inductive sin :=
 | STake                       (* queue.Dequeue() + go func(){...} *)
 | SHand (c : conn)            (* client.PushCh() <- pushEv succeeds *)
 | SClientDone (c : conn)      (* Connection.Push / StreamDeltas called pushEv.done() *)
+| SClientFail (c : conn)      (* handed off, then stream.Send failed inside Connection.Push: done() still runs,
+                                 the Stream loop returns the error and gRPC cancels the stream context *)
 | SClose (c : conn)           (* the client's stream context is cancelled *)
 | SDrop (c : conn)            (* the parked goroutine takes the closed / stopCh branch: doneFunc() *)
 | SStop                       (* close(stopCh) *)
@@ -493,6 +495,14 @@ Definition sstep (s : sst) (i : sin) : sst :=
       | Some _ =>
           let s' := mkSst (s_q s) (s_tokens s) (s_cap s) (s_loop s) (s_parked s) (aremove c (s_handed s))
                           (s_closed s) (s_stopped s) (s_done_calls s) in
+          done_func s' c
+      | None => s
+      end
+  | SClientFail c =>
+      match alookup c (s_handed s) with
+      | Some _ =>
+          let s' := mkSst (s_q s) (s_tokens s) (s_cap s) (s_loop s) (s_parked s) (aremove c (s_handed s))
+                          (c :: s_closed s) (s_stopped s) (s_done_calls s) in
           done_func s' c
       | None => s
       end
